@@ -90,6 +90,9 @@ pub enum Op {
     /// collect the node's edge lists through the public iterators
     Snapshot { u: usize },
     Search { root: usize, spec: SearchSpec },
+    /// a read-only call on the shared container: 0 roots, 1 leaves, 2 orphans, 3 to_vec, 4 to_dot,
+    /// 5 scc, 6 serialise (JSON), 7 to_dot_with_attr, 8 iter
+    GView { kind: u8 },
 }
 
 impl Op {
@@ -115,6 +118,7 @@ impl Op {
             Op::FindIn { .. } => "find_inbound",
             Op::Snapshot { .. } => "snapshot",
             Op::Search { .. } => "search",
+            Op::GView { .. } => "container_view",
         }
     }
     /// the node the call is made on
@@ -134,6 +138,7 @@ impl Op {
             | Op::FindIn { u, .. }
             | Op::Snapshot { u } => *u,
             Op::Search { root, .. } => *root,
+            Op::GView { .. } => 0,
         }
     }
     pub fn prov(&self) -> Prov {
@@ -399,7 +404,7 @@ impl Model {
                 }
                 o => Err(format!("unexpected return {o:?}")),
             },
-            Op::Search { .. } => Ok(()),
+            Op::Search { .. } | Op::GView { .. } => Ok(()),
         }
     }
 }
